@@ -131,11 +131,17 @@ pub enum Value<'a> {
 }
 
 impl<'a> Value<'a> {
-    /// Clones the value, placing any array backing stores in the given arena.
-    /// Strings use zero-cost clone. Numbers/bools/null are trivial copies.
+    /// Clones the value, placing any string bytes and array backing stores in the given arena.
+    /// An owned string is copied, never aliased: the owner may return its pool slot (or the
+    /// frame may be reset) while the clone is still held by an enclosing evaluation.
+    /// Borrowed strings are source literals or static text and are shared as is.
+    /// Numbers/bools/null are trivial copies.
     fn clone_into(&self, arena: &'a Arena) -> Self {
         match self {
-            Value::Str(cow) => Value::Str(cow.clone()),
+            Value::Str(ArenaCow::Borrowed(s)) => Value::Str(ArenaCow::Borrowed(s)),
+            Value::Str(ArenaCow::Owned(s)) => {
+                Value::Str(ArenaCow::Owned(ArenaString::from_str(arena, s.as_str())))
+            }
             Value::Number(n) => Value::Number(*n),
             Value::Bool(b) => Value::Bool(*b),
             Value::Host(host) => Value::Host(host.clone_into(arena)),
@@ -801,18 +807,17 @@ impl<'a> Runtime<'a> {
 
         // Parameters live in their own lexical scope so block locals can shadow them.
         let param_ids = self.bound_param_ids(func_def.id, func_def.params);
+        let has_frame = self.has_frame_arena();
         self.push_scope_with_capacity(func_def.params.params.len(), self.frame);
         let param_scope =
             self.env.last_mut().expect("Parameter scope should exist immediately after push");
         for ((param, maybe_local), arg) in
             func_def.params.params.iter().zip(param_ids.iter().copied()).zip(arg_values)
         {
-            let arg = match arg {
-                Value::Str(ArenaCow::Borrowed(s)) if self.pool.contains(s.as_ptr()) => {
-                    Value::Str(ArenaCow::Owned(self.pool.alloc_str(s)))
-                }
-                other => other,
-            };
+            // A parameter is a variable: promote like every other store path, so that a
+            // parameter array or command grown inside a loop does not reallocate its backing
+            // store in a frame region the loop resets.
+            let arg = if has_frame { arg.promote(&self.pool, self.frame) } else { arg };
             param_scope.push(LocalSlot { id: maybe_local, name: param, value: arg });
         }
 
@@ -1546,14 +1551,15 @@ impl<'a> Runtime<'a> {
     fn relocate_return_value(&self, val: Value<'a>, frame_offset: usize) -> Value<'a> {
         let is_frame_string = match &val {
             Value::Str(ArenaCow::Owned(s)) => !std::ptr::eq(s.arena(), self.arena),
+            Value::Str(ArenaCow::Borrowed(s)) => self.frame.contains_ptr(s.as_ptr()),
             _ => false,
         };
 
         if is_frame_string {
-            let Value::Str(ArenaCow::Owned(s)) = val else { unreachable!() };
+            let Value::Str(s) = val else { unreachable!() };
             // Stage string bytes on persistent (at the current tail).
             let stage_mark = self.arena.offset();
-            let staged = ArenaString::from_str(self.arena, s.as_str());
+            let staged = ArenaString::from_str(self.arena, &s);
             // Drop frame string before reset (deallocate is a no-op).
             drop(s);
             unsafe { self.frame.reset(frame_offset) };
@@ -1565,21 +1571,21 @@ impl<'a> Runtime<'a> {
             return Value::Str(ArenaCow::Owned(result));
         }
 
-        if matches!(val, Value::Array(_)) {
-            // Arrays promoted to persistent via pool.
+        if matches!(val, Value::Array(_) | Value::Host(_)) {
+            // Arrays and host values are promoted to persistent via pool.
             let promoted = val.promote(&self.pool, self.frame);
             unsafe { self.frame.reset(frame_offset) };
             return promoted;
         }
 
-        // Numbers, bools, null, borrowed strings, persistent-owned strings
+        // Numbers, bools, null, borrowed source strings, persistent-owned strings
         // all survive frame reset without staging.
         unsafe { self.frame.reset(frame_offset) };
         val
     }
 
-    /// Overwrites a variable slot, returning the old value's pool slot
-    /// before promoting the new value.
+    /// Overwrites a variable slot. The new value is promoted before the old
+    /// value's pool slot is returned, so the new value may still refer to the old one.
     fn overwrite_slot(
         slot: &mut Value<'a>,
         val: Value<'a>,
@@ -1588,9 +1594,8 @@ impl<'a> Runtime<'a> {
         frame: &Arena,
     ) {
         if has_frame {
-            let old = mem::replace(slot, Value::Null);
+            let old = mem::replace(slot, val.promote(pool, frame));
             unsafe { old.return_to_pool(pool) };
-            *slot = val.promote(pool, frame);
         } else {
             *slot = val;
         }
